@@ -174,3 +174,82 @@ pub fn pipeline(a: &HashMap<String, String>) -> i32 {
     }
     0
 }
+
+/// Replays TLC-generated tool-chain histories (Gen_System) with the real binaries.
+pub fn histories(a: &HashMap<String, String>) -> i32 {
+    let bins = a.get("bins").expect("--bins");
+    let tmp = a.get("tmp").expect("--tmp");
+    let out = a.get("out").expect("--out");
+    let inp = a.get("in").expect("--in");
+    let bin = |b: &str| format!("{bins}/{b}");
+    let text = std::fs::read_to_string(inp).expect("read");
+    let mut evs: Vec<Value> = vec![];
+    let seq = |x: &Value| -> Vec<u32> { x.as_array().map(|a| a.iter().map(|c| c.as_u64().unwrap() as u32).collect()).unwrap_or_default() };
+    for (hi, line) in text.lines().filter(|l| !l.trim().is_empty()).enumerate() {
+        let v: Value = serde_json::from_str(line).expect("json");
+        let d = ADict::from_json(&v["defs"]);
+        let dir = format!("{tmp}/h{hi}");
+        std::fs::create_dir_all(&dir).unwrap();
+        let p = |f: &str| format!("{dir}/{f}");
+        std::fs::write(p("lex.csv"), ADict::render_lex(&d.lex)).unwrap();
+        std::fs::write(p("char.def"), d.render_char_def()).unwrap();
+        std::fs::write(p("unk.def"), d.render_unk()).unwrap();
+        if let AConn::Matrix { nr, nl, mat } = &d.conn {
+            std::fs::write(p("matrix.def"), ADict::render_matrix(*nr, *nl, mat)).unwrap();
+        }
+        let user = ADict::from_json(&json!({"cats": v["defs"]["cats"], "space": v["defs"]["space"], "lex": v["user"], "nr": 1, "nl": 1, "mat": [0]}));
+        std::fs::write(p("user.csv"), ADict::render_lex(&user.lex)).unwrap();
+        let probes: Vec<Vec<u32>> = v["probes"].as_array().unwrap().iter().map(seq).collect();
+        let stdin: String = probes.iter().map(|s| cps_to_string(s) + "\n").collect();
+        evs.push(json!({"ev": "syssession", "defs": v["defs"], "user": v["user"], "linesets": v["linesets"], "probes": v["probes"]}));
+        let dic = p("system.dic.zst");
+        for op in v["hist"].as_array().unwrap() {
+            match op["tool"].as_str().unwrap() {
+                "compile" => {
+                    let (ok, _) = run(&bin("compile"), &["-l", &p("lex.csv"), "-m", &p("matrix.def"), "-c", &p("char.def"), "-u", &p("unk.def"), "-o", &dic], "");
+                    evs.push(json!({"ev": "sys", "tool": "compile", "ok": ok}));
+                }
+                "reorder" => {
+                    let k = op["lines"].as_u64().unwrap() as usize;
+                    let lines: Vec<Vec<u32>> = v["linesets"][k - 1].as_array().unwrap().iter().map(seq).collect();
+                    let tstdin: String = lines.iter().map(|s| cps_to_string(s) + "\n").collect();
+                    let (ok, _) = run(&bin("reorder"), &["-i", &dic, "-o", &p("mapping")], &tstdin);
+                    let lo = parse_ids(&std::fs::read_to_string(p("mapping.lmap")).unwrap_or_default());
+                    let ro = parse_ids(&std::fs::read_to_string(p("mapping.rmap")).unwrap_or_default());
+                    evs.push(json!({"ev": "sys", "tool": "reorder", "ok": ok, "lines": k, "lo": lo, "ro": ro}));
+                }
+                "map" => {
+                    let tmpdic = p("mapped.tmp.zst");
+                    let (ok, _) = run(&bin("map"), &["-i", &dic, "-m", &p("mapping"), "-o", &tmpdic], "");
+                    if ok {
+                        let _ = std::fs::rename(&tmpdic, &dic);
+                    } else {
+                        let _ = std::fs::remove_file(&tmpdic);
+                    }
+                    evs.push(json!({"ev": "sys", "tool": "map", "ok": ok}));
+                }
+                _ => {
+                    let isp = op["isp"].as_bool().unwrap_or(false);
+                    let withuser = op["user"].as_bool().unwrap_or(false);
+                    let mut ta: Vec<String> = vec!["-i".into(), dic.clone(), "-O".into(), "detail".into()];
+                    if isp {
+                        ta.push("-S".into());
+                    }
+                    if withuser {
+                        ta.extend(["-u".into(), p("user.csv")]);
+                    }
+                    let tref: Vec<&str> = ta.iter().map(|s| s.as_str()).collect();
+                    let (ok, text) = run(&bin("tokenize"), &tref, &stdin);
+                    let toks = if ok { parse_detail(&text) } else { vec![] };
+                    evs.push(json!({"ev": "sys", "tool": "tokenize", "ok": ok, "isp": isp, "user": withuser, "toks": toks}));
+                }
+            }
+        }
+        let _ = std::fs::remove_dir_all(&dir);
+    }
+    let mut f = std::io::BufWriter::new(std::fs::File::create(out).expect("create"));
+    for e in &evs {
+        writeln!(f, "{}", e).unwrap();
+    }
+    0
+}
